@@ -33,6 +33,8 @@ def verify(sid):
     try:
         shutil.copyfile(os.path.join(REPO, "Cargo.lock"), os.path.join(wt, "Cargo.lock"))
         feat = "--features parallel" if meta.get("needs_parallel") else ""
+        if meta.get("release_only"):
+            feat += " --release"       # the change only shows in builds without debug assertions / overflow checks
         shutil.copyfile(os.path.join(d, "demo.rs"), os.path.join(wt, "tests", "mutant_demo.rs"))
         rc0, out0 = sh("cargo test --offline %s --test mutant_demo" % feat, cwd=wt)
         rc, out = sh("git apply %s" % os.path.join(d, "patch.diff"), cwd=wt)
